@@ -342,11 +342,77 @@ func Ite(c, a, b *Term) *Term {
 	if c.Op == "not" {
 		return Ite(c.Args[0], b, a)
 	}
+	// the branches may use the condition: ite(c, ite(c,x,y), z) = ite(c,x,z); conjuncts equal to c
+	// (or to its negation) inside a nested condition are resolved (two levels)
+	if c.Op != "ite" {
+		a2, b2 := assumeCond(a, c, true, 2), assumeCond(b, c, false, 2)
+		if a2 != a || b2 != b {
+			return Ite(c, a2, b2)
+		}
+	}
 	srt := a.Sort
 	if srt == SUnk {
 		srt = b.Sort
 	}
 	return App("ite", srt, c, a, b)
+}
+
+// assumeCond simplifies the ite structure at the top of t under the assumption c == val.
+func assumeCond(t, c *Term, val bool, depth int) *Term {
+	if depth == 0 || t.Op != "ite" {
+		return t
+	}
+	k := t.Args[0]
+	res := condUnder(k, c, val)
+	if res == k {
+		x, y := assumeCond(t.Args[1], c, val, depth-1), assumeCond(t.Args[2], c, val, depth-1)
+		if x == t.Args[1] && y == t.Args[2] {
+			return t
+		}
+		return Ite(k, x, y)
+	}
+	if res.IsTrue() {
+		return assumeCond(t.Args[1], c, val, depth-1)
+	}
+	if res.IsFalse() {
+		return assumeCond(t.Args[2], c, val, depth-1)
+	}
+	return Ite(res, assumeCond(t.Args[1], c, val, depth-1), assumeCond(t.Args[2], c, val, depth-1))
+}
+
+// condUnder rewrites the condition k given c == val: k itself, its negation, or a conjunction
+// containing c / (not c).
+func condUnder(k, c *Term, val bool) *Term {
+	if k == c {
+		return BoolLit(val)
+	}
+	if k.Op == "not" && k.Args[0] == c {
+		return BoolLit(!val)
+	}
+	if k.Op == "and" {
+		var rest []*Term
+		changed := false
+		for _, x := range k.Args {
+			switch {
+			case x == c:
+				if !val {
+					return False
+				}
+				changed = true
+			case x.Op == "not" && x.Args[0] == c:
+				if val {
+					return False
+				}
+				changed = true
+			default:
+				rest = append(rest, x)
+			}
+		}
+		if changed {
+			return And(rest...)
+		}
+	}
+	return k
 }
 
 func constEq(a, b *Term) (bool, bool) {
